@@ -108,6 +108,10 @@ class ReindexAxis(Contract):
                                     yield {"name": "r%d-axis%d-%s-%s-method_%s-%s-data_%s" % (rank, d, lk, given, method, "raise" if raise_error else "fill", dk),
                                            "rank": rank, "d": d, "lk": lk, "given": given, "method": method,
                                            "raise_error": raise_error, "dk": dk}
+        # a fill value other than NaN ("for all fill values"): float data, any real fill
+        for rank, d in ((1, 0), (2, 0)):
+            yield {"name": "r%d-axis%d-f-ndarray-method_None-fill_value_given-data_f" % (rank, d), "rank": rank, "d": d, "lk": "f", "given": "ndarray",
+                   "method": None, "raise_error": False, "dk": "f", "fill_given": True}
 
     def bound_lengths(self, case):
         return ["lab%d.n" % d for d in range(case["rank"])] + ["new.n"]
@@ -127,9 +131,13 @@ class ReindexAxis(Contract):
             kw["raise_error"] = True
         if case["given"] == "ndarray":
             kw["axis"] = "x%d" % case["d"]
+        fill = None
+        if case.get("fill_given"):
+            fill = S.real("fill")
+            kw["fill_value"] = fill
         arr.axes[case["d"]].attrs["long_name"] = "the reindexed axis"      # axis-level metadata must survive reindexing of that axis [C16]
         return {"arr": arr, "labels": labels, "data": data, "old": S.snapshot(data), "new": new, "given": given, "kwargs": kw,
-                "attrs0": dict(arr.attrs)}
+                "attrs0": dict(arr.attrs), "fill": fill}
 
     def call(self, fn, env):
         return env["arr"].reindex_axis(env["given"], **env["kwargs"])
@@ -162,7 +170,10 @@ class ReindexAxis(Contract):
         yield "present-labels-keep-their-slice", S.forall_nd(shape, lambda *ks: S.forall(0, n, lambda p: S.implies(
             S.at(L, p) == S.at(new, ks[d]) if case["method"] != "right" else False,
             lambda: S.same(S.at(rv, *ks), cell(S, data, ks, d, p)))))
-        if case["method"] is None:
+        if case["method"] is None and env.get("fill") is not None:
+            yield "missing-labels-are-filled-with-the-given-value", S.forall_nd(shape, lambda *ks: S.implies(
+                self._missing(S, env, case, ks[d]), lambda: S.same(S.at(rv, *ks), env["fill"])))
+        elif case["method"] is None:
             yield "missing-labels-are-filled-with-nan", S.forall_nd(shape, lambda *ks: S.implies(
                 self._missing(S, env, case, ks[d]), lambda: S.isnan(S.at(rv, *ks))))
             any_missing = S.exists(0, m, lambda k: self._missing(S, env, case, k))
@@ -480,6 +491,9 @@ class Align(Contract):
             for join in ("outer", "inner"):
                 for sort in (False, True):
                     yield {"name": "%s-%s-%s" % (cfg, join, "sort" if sort else "nosort"), "cfg": cfg, "join": join, "sort": sort}
+        # axis=<one dimension>: only that dimension is aligned, the others are left alone
+        for cfg, axis in (("x0|x0x1", "x0"), ("x0x1|x1", "x1"), ("x0|x0", "x0")):
+            yield {"name": "%s-outer-nosort-axis_%s" % (cfg, axis), "cfg": cfg, "join": "outer", "sort": False, "axis": axis}
 
     def bound_lengths(self, case):
         names = []
@@ -501,7 +515,7 @@ class Align(Contract):
             labels.append(labs)
             datas.append(data)
         return {"arrays": arrays, "labels": labels, "datas": datas, "old": [S.snapshot(x) for x in datas],
-                "args": (list(arrays),), "kwargs": {"join": case["join"], "sort": case["sort"]}}
+                "args": (list(arrays),), "kwargs": dict({"join": case["join"], "sort": case["sort"]}, **({"axis": case["axis"]} if case.get("axis") else {}))}
 
     def raises(self, S, case, env):
         return {IndexError: False}
@@ -513,16 +527,22 @@ class Align(Contract):
             return calls[-1][3], {"join": cenv["join"], "sort": cenv["sort"], "axis": cenv["axis"]}
         import importlib
         mod = importlib.import_module("dimarray.core.align")      # (the attribute dimarray.core.align is the function align)
-        return mod._get_aligned_axes(list(env["arrays"]), join=case["join"], sort=case["sort"]), None
+        return mod._get_aligned_axes(list(env["arrays"]), join=case["join"], sort=case["sort"], axis=case.get("axis")), None
 
     def post(self, S, case, env, result):
         cfg = self.CONFIGS[case["cfg"]]
         common, fwd = self._common(S, case, env)
         if fwd is not None:
-            yield "join-sort-axis-forwarded", fwd["join"] == case["join"] and bool(fwd["sort"]) == case["sort"] and fwd["axis"] is None
+            yield "join-sort-axis-forwarded", fwd["join"] == case["join"] and bool(fwd["sort"]) == case["sort"] and fwd["axis"] == case.get("axis")
         yield "one-output-per-input-in-order", isinstance(result, list) and len(result) == len(cfg)
         cax = {ax.name: ax.values for ax in common}
+        if case.get("axis"):
+            yield "only-the-requested-dimension-is-aligned", sorted(cax) == [case["axis"]]
+            # the dimensions that are not aligned keep each array's own labels: the clauses below read them as that array's "common" axis
+            own = [dict(labs) for labs in env["labels"]]
         for t, ds in enumerate(cfg):
+            if case.get("axis"):
+                cax = dict(own[t], **{ax.name: ax.values for ax in common})
             out, inp = result[t], env["arrays"][t]
             yield "out%d:dims-kept" % t, tuple(out.dims) == tuple(ds)
             for k, d in enumerate(ds):
